@@ -162,6 +162,23 @@ func history(c *lib.Ctx, sc *lib.Script, fails *[]lib.OracleFail, rng *lib.RNG, 
 		ops, directed, directedUnique = sops, []placed{{uat, u}, {at, p}}, true
 		c.Hit("history:sparse-unique-then-plain")
 	}
+	// SIZE FAMILY (storegen/large.go): one history in ten (one in five at thorough) on 64–150 documents with
+	// compound indexes (2–3 keys; plain, partial, unique) created before the load, over the loaded data, or later, and
+	// dropped again; filters that bound the leading key by a range over ≥ 33 distinct values and the next key too,
+	// `$or` lists of 17–40 alternatives, updates / deletes of dozens of documents, sort + skip/limit over large results.
+	var largeFam *sg.Large
+	var nload int
+	if rng.Chance(1, c.Scale(10, 5)) {
+		lg := &sg.Gen{R: rng, Depth: depth, Hit: c.Hit}
+		largeFam = lg.NewLarge(rng.Chance(1, 3))
+		ops = largeFam.Load()
+		nload = len(ops)
+		ops = append(ops, sg.Op{Kind: "find"})
+		ops = append(ops, largeFam.Ops(rng.Range(8, 16))...)
+		directed = nil
+		configs = 2
+		c.Hit("history:large-store")
+	}
 	base := sg.NewCase(c, sc, fails, false)
 	want := replay(base, ops, nil)
 	g := &sg.Gen{R: rng, Depth: depth}
@@ -170,6 +187,17 @@ func history(c *lib.Ctx, sc *lib.Script, fails *[]lib.OracleFail, rng *lib.RNG, 
 		cfg := genConfig(rng, g, len(ops), unique)
 		if directed != nil && n == 0 {
 			cfg, unique = directed, directedUnique
+		}
+		if largeFam != nil {
+			cfg, unique = nil, false
+			for _, ix := range largeFam.Indexes() {
+				at := lib.Pick(rng, []int{0, 0, nload, nload + 1, rng.Intn(len(ops))})
+				cfg = append(cfg, placed{at, ix})
+				unique = unique || ix.Unique
+				if rng.Chance(1, 4) {
+					cfg = append(cfg, placed{rng.Range(at, len(ops)-1), sg.Op{Kind: "unidx", Keys: ix.Keys}})
+				}
+			}
 		}
 		k := sg.NewCase(c, sc, fails, false)
 		got := replay(k, ops, cfg)
